@@ -1,4 +1,5 @@
 import Gbo.Props.C16
+import Gbo.Proofs.ArithFrame
 /-
   C10 — the f32 and f64 instantiations.  The model is one function of an arithmetic parameter; everything
   proved "for every rounding" holds for `Arith.f32` (binary32 round-to-nearest-even) and `Arith.f64`
@@ -28,5 +29,18 @@ example : Arith.f32.isect ⟨0, 0⟩ ⟨2, 2⟩ ⟨0, 2⟩ ⟨2, 0⟩ = Arith.ex
 
 /-- and they differ where the intersection is not representable: (1/3, 1/3) -/
 example : Arith.f32.isect ⟨0, 0⟩ ⟨1, 1⟩ ⟨0, 1⟩ ⟨2, -3⟩ ≠ Arith.f64.isect ⟨0, 0⟩ ⟨1, 1⟩ ⟨0, 1⟩ ⟨2, -3⟩ := by decide +kernel
+
+/-- **C10, where the coordinate type enters.**  The run uses its arithmetic in exactly two places: the rounded
+    intersection routine and the one-ulp step of `divide_segment`; every other decision (both orders, the
+    orientation tests, all equality tests) is made on the exact values of the coordinates.  Hence two
+    arithmetics that compute the same intersections and the same one-ulp steps give the same run — same result
+    or same failure — for every input and operation.  (In the code: f32 coordinates are widened to f64 for
+    `orient2d`, which is why the model's orientation is exact for both precisions; what differs between the
+    f32 and the f64 build is `intersection` and `next_after`.) -/
+theorem C10_depends_only_on_isect_and_nextUp (ar1 ar2 : Arith)
+    (hi : ∀ a1 a2 b1 b2 : Pt, ar1.isect a1 a2 b1 b2 = ar2.isect a1 a2 b1 b2)
+    (hn : ∀ x : Rat, ar1.nextUp x = ar2.nextUp x) (cfg : Cfg) (subject clipping : MPoly) (op : Op) :
+    booleanOperation ar1 cfg subject clipping op = booleanOperation ar2 cfg subject clipping op :=
+  booleanOperation_frame ⟨hi, hn⟩ cfg subject clipping op
 
 end Gbo.Props
